@@ -71,8 +71,11 @@ func getUniverse(seed int64, na, nk int) *universe {
 
 // runCase executes the sequence against the real code next to the model; with checkAll the oracle
 // runs after every op, otherwise only after the last one (its prefixes are cases of their own).
-func runCase(cs *Case, checkAll bool, st *stats) (f *failure, m *model) {
-	r := newRun(cs.Level[0], getUniverse(cs.IDSeed, cs.NA, cs.NK), cs.Nest, st)
+func runCase(cs *Case, u *universe, checkAll bool, st *stats) (f *failure, m *model) {
+	if u == nil {
+		u = getUniverse(cs.IDSeed, cs.NA, cs.NK)
+	}
+	r := newRun(cs.Level[0], u, cs.Nest, st)
 	m = r.m
 	defer r.release()
 	defer func() {
@@ -145,7 +148,8 @@ func alphabet(m *model, nest int, exhaustive bool) []Op {
 
 type exhResult struct {
 	Level     string         `json:"level"`
-	MaxLen    int            `json:"max_len"`
+	FullLen   int            `json:"all_sequences_up_to_len"`
+	MaxLen    int            `json:"one_per_renaming_class_up_to_len"`
 	Accounts  int            `json:"accounts"`
 	Keys      int            `json:"keys"`
 	Nest      int            `json:"max_nesting"`
@@ -165,7 +169,36 @@ func dryFrom(level byte, u *universe, nest int, ops []Op) *run {
 	return r
 }
 
-func exhaustive(c *vf.Ctx, level byte, maxLen, na, nk, nest int, total *stats) {
+// canonical: accounts and keys are first mentioned in index order (representative of the class of
+// sequences equal up to renaming accounts / keys).
+func canonical(ops []Op) bool {
+	sa, sk := 0, 0
+	for _, o := range ops {
+		switch o.K {
+		case "put", "set", "del", "stage", "cssnap", "csrb", "open", "drop":
+			if o.A > sa {
+				return false
+			}
+			if o.A == sa {
+				sa++
+			}
+		}
+		if o.K == "set" || o.K == "del" {
+			if o.Key > sk {
+				return false
+			}
+			if o.Key == sk {
+				sk++
+			}
+		}
+	}
+	return true
+}
+
+// exhaustive: every valid sequence of length <= fullLen, and for fullLen < length <= maxLen one
+// representative per renaming class (canonical sequences).
+func exhaustive(c *vf.Ctx, level byte, fullLen, maxLen, na, nk, nest int, total *stats) {
+	countOnly := os.Getenv("C12_COUNT") != ""
 	u := getUniverse(c.Seed, na, nk)
 	const split = 2
 	tasks := make(chan []Op, 1024)
@@ -176,11 +209,14 @@ func exhaustive(c *vf.Ctx, level byte, maxLen, na, nk, nest int, total *stats) {
 	stop := func() bool { return atomic.LoadInt64(&failures) >= maxFailures }
 
 	visit := func(ops []Op, st *stats, local map[int]int) {
+		if countOnly {
+			local[len(ops)]++
+			return
+		}
 		cs := &Case{Level: string(level), NA: na, NK: nk, Nest: nest, IDSeed: c.Seed, Ops: ops}
-		f, m := runCase(cs, false, st)
+		f, m := runCase(cs, u, false, st)
 		st.seqs++
 		local[len(ops)]++
-		c.Eval(1)
 		if f != nil {
 			report(c, cs, f, len(ops))
 			return
@@ -203,6 +239,12 @@ func exhaustive(c *vf.Ctx, level byte, maxLen, na, nk, nest int, total *stats) {
 	var dfs func(d *run, ops []Op, st *stats, local map[int]int, top bool)
 	dfs = func(d *run, ops []Op, st *stats, local map[int]int, top bool) {
 		if stop() {
+			return
+		}
+		if len(ops) >= fullLen && maxLen > fullLen && !canonical(ops) {
+			if len(ops) == fullLen && !(top && len(ops) == split) {
+				visit(ops, st, local)
+			}
 			return
 		}
 		if len(ops) > 0 && !(top && len(ops) == split) {
@@ -228,6 +270,7 @@ func exhaustive(c *vf.Ctx, level byte, maxLen, na, nk, nest int, total *stats) {
 		for l, n := range local {
 			perLen[fmt.Sprint(l)] += n
 			nseq += int64(n)
+			c.Eval(n)
 		}
 		mu.Unlock()
 	}
@@ -249,13 +292,14 @@ func exhaustive(c *vf.Ctx, level byte, maxLen, na, nk, nest int, total *stats) {
 	wg.Wait()
 	merge(st, local)
 
-	res := exhResult{Level: string(level), MaxLen: maxLen, Accounts: na, Keys: nk, Nest: nest, Sequences: nseq,
+	res := exhResult{Level: string(level), FullLen: fullLen, MaxLen: maxLen, Accounts: na, Keys: nk, Nest: nest, Sequences: nseq,
 		PerLen: perLen, WithRb: nrb, Complete: !stop(),
 		Alphabet: "put(a) set(c,k) del(c,k) stage(c) snap rb(any earlier) update commit(=update+commit) reopen"}
 	if level == 'S' {
 		res.Alphabet += " cssnap(c) csrb(c, any earlier)"
 	}
 	c.Set("exhaustive_"+string(level), res)
+	fmt.Printf("  per length: %v\n", perLen)
 	fmt.Printf("exhaustive level=%c len<=%d sequences=%d with-nonvacuous-rollback=%d t=%.1fs\n", level, maxLen, nseq, nrb, time.Since(t0).Seconds())
 }
 
@@ -270,6 +314,9 @@ func (t *stats) merge(s *stats) {
 	t.rawScans += s.rawScans
 	t.rawVals += s.rawVals
 	t.rawTagged += s.rawTagged
+	t.replayRootCmp += s.replayRootCmp
+	t.replayStoreCmp += s.replayStoreCmp
+	t.replayStoreKeys += s.replayStoreKeys
 	t.dropped += s.dropped
 	t.deadTags += s.deadTags
 	t.seqs += s.seqs
@@ -442,19 +489,19 @@ func runRandom(cs *Case, rng *rand.Rand, p *profile, nops int, st *stats) (f *fa
 }
 
 var t0 = time.Now()
+var ballast []byte
 
 func main() {
 	c := vf.Start("C12", "exploration")
 	storeBase = filepath.Join(c.Scratch(), "stores")
 	runtime.GOMAXPROCS(workers)
-	// tiny live heap + very high allocation rate (trie batches): collect by heap size, not by ratio
-	debug.SetGCPercent(-1)
-	lim := int64(3 << 30)
-	if v := os.Getenv("C12_MEMLIM_MB"); v != "" {
-		fmt.Sscan(v, &lim)
-		lim <<= 20
+	// tiny live heap + very high allocation rate (trie batches, hashers): without help the collector
+	// runs continuously. An untouched no-scan ballast makes a cycle start every ~ballast bytes.
+	bal := 512
+	if v := os.Getenv("C12_BALLAST_MB"); v != "" {
+		fmt.Sscan(v, &bal)
 	}
-	debug.SetMemoryLimit(lim)
+	ballast = make([]byte, bal<<20)
 
 	if c.ReplayPath != "" {
 		var cs Case
@@ -463,7 +510,7 @@ func main() {
 			os.Exit(2)
 		}
 		st := newStats()
-		f, _ := runCase(&cs, true, st)
+		f, _ := runCase(&cs, nil, true, st)
 		if f != nil && os.Getenv("C12_SHRINK") != "" {
 			// development aid: greedy removal of ops while the same class of failure remains
 			kind := strings.SplitN(f.key, "/after-", 2)[0]
@@ -472,7 +519,7 @@ func main() {
 				for i := len(cs.Ops) - 1; i >= 0; i-- {
 					t := cs
 					t.Ops = append(append([]Op(nil), cs.Ops[:i]...), cs.Ops[i+1:]...)
-					if g, _ := runCase(&t, true, newStats()); g != nil && strings.HasPrefix(g.key, kind) {
+					if g, _ := runCase(&t, nil, true, newStats()); g != nil && strings.HasPrefix(g.key, kind) {
 						cs, f, changed = t, g, true
 					}
 				}
@@ -500,15 +547,13 @@ func main() {
 		defer pprof.StopCPUProfile()
 	}
 	total := newStats()
-	lenB, lenS := c.Pick(6, 7), c.Pick(5, 6)
-	if v := os.Getenv("C12_LEN_B"); v != "" {
-		fmt.Sscan(v, &lenB)
+	// B: all <=5 (+ canonical 6) quick, all <=6 (+ canonical 7) thorough; S has the larger alphabet
+	fB, mB, fS, mS := c.Pick(5, 6), c.Pick(6, 7), c.Pick(4, 5), c.Pick(5, 6)
+	if v := os.Getenv("C12_LENS"); v != "" {
+		fmt.Sscan(v, &fB, &mB, &fS, &mS)
 	}
-	if v := os.Getenv("C12_LEN_S"); v != "" {
-		fmt.Sscan(v, &lenS)
-	}
-	exhaustive(c, 'B', lenB, 2, 2, 6, total)
-	exhaustive(c, 'S', lenS, 2, 2, 6, total)
+	exhaustive(c, 'B', fB, mB, 2, 2, 6, total)
+	exhaustive(c, 'S', fS, mS, 2, 2, 6, total)
 	nr := c.Pick(600, 40000)
 	if v := os.Getenv("C12_NR"); v != "" {
 		fmt.Sscan(v, &nr)
@@ -523,6 +568,9 @@ func main() {
 	c.Count("oracle.reads_compared", total.reads)
 	c.Count("oracle.root_vs_fresh_statedb", total.rootCmp)
 	c.Count("oracle.reopened_statedb_compared", total.reopenCmp)
+	c.Count("oracle.root_vs_replay_without_reverted_writes", total.replayRootCmp)
+	c.Count("oracle.store_vs_replay_compared", total.replayStoreCmp)
+	c.Count("oracle.store_vs_replay_keys_equal", total.replayStoreKeys)
 	c.Count("oracle.raw_store_scans", total.rawScans)
 	c.Count("oracle.raw_store_values_scanned", total.rawVals)
 	c.Count("oracle.raw_store_tagged_values_found", total.rawTagged)
@@ -533,6 +581,7 @@ func main() {
 	c.Count("seen.max_nesting", total.maxNest)
 
 	pprof.StopCPUProfile()
+	runtime.KeepAlive(ballast)
 	c.Finish("every read (GetState/GetAccountState/GetData/GetInitialData, live handles and freshly opened ones) equals a deep-copy snapshot-stack model after the op; "+
 		"state root after Update equals a fresh StateDB on a fresh store fed only the surviving writes; after Commit a StateDB reopened at the root equals the model "+
 		"and no uniquely tagged value of a reverted write is anywhere in the raw store",
